@@ -1,4 +1,5 @@
 import ConcVerif.Proof.DObjConc
+import ConcVerif.Proof.DObjLive
 /-! # C18 — every DelayedObjects future is fulfilled exactly once and never hangs
 
 Model: `Model/DObj.lean`.  Sequential specification `Seq.apply` (one pure function per public method,
@@ -331,5 +332,61 @@ example : ∃ s, Reachable s ∧ s.seq.phase (.i 9) = .unknown ∧ s.seq.phase (
   ⟨_, ⟨[(1, .call (.get (.i 1) 0)), (1, .mlk), (1, .mul), (1, .ret (.get (.i 1) 0) .unit),
         (1, .call (.set (.i 1) 5 true)), (1, .mlk), (1, .pset 5), (1, .mul), (1, .ret (.set (.i 1) 5 true) .unit),
         (1, .call (.set (.i 1) 6 false))], rfl⟩, by decide, by decide, by decide, by decide⟩
+
+/-! ## Liveness: every call returns — for every scheduler
+
+Environment events (`isEnv`, Proof/DObjLive.lean): `call`, the tap observation `acc`, a consumer's observation
+`got`; library steps: `mlk`, each `set_value` (`pset`), `mul`, `ret`.
+* `C18_terminates` (no livelock): an execution that makes no environment event from some point on cannot be
+  infinite, whatever the scheduler does (two-level rank: "has not taken `promiseLock` yet", then
+  `todo.length + 2` — the `set_value` calls of a critical section are fixed when the lock is taken).
+* `C18_progress` / `C18_stuck_all_returned` (no deadlock): a reachable state without enabled library step has
+  every thread returned.  With `C18_never_hangs_partial`: a maximal execution with finitely many calls that
+  includes the destructor ends with every thread returned and every future handed out ready.
+Not covered: starvation of one caller by infinitely many calls of others under an unfair mutex; a consumer
+blocked inside `future::get` is not modelled as a thread state (`got` observes a ready future). -/
+
+theorem C18_terminates (x : Live.Exec step) (N : Nat) (ts : List Tid) (hnd : ts.Nodup)
+    (hts : ∀ n, N ≤ n → x.who n ∈ ts) (hnc : ∀ n, N ≤ n → isEnv (x.ev n) = false) : False :=
+  Live.no_infinite_run_lex rankedLex ts hnd x N trivial hts hnc
+
+/-- deadlock-freedom: if some thread is inside a call, some thread has an enabled library step -/
+theorem C18_progress {s : St} (h : Reachable s) {t : Tid} (ht : s.pc t ≠ .idle) : ∃ u, LibEnabled s u := by
+  cases hl : s.lock with
+  | some u =>
+    obtain ⟨o, r, td, hp⟩ := ((inv_reachable h).lockPc u).1 hl
+    cases td with
+    | nil => exact ⟨u, .mul, rfl, by simp [step, hp, hl]⟩
+    | cons v vs => exact ⟨u, .pset v, rfl, by simp [step, hp]⟩
+  | none =>
+    cases hp : s.pc t with
+    | idle => exact absurd hp ht
+    | called o =>
+      obtain ⟨s', hs⟩ := C18_exactly_once_no_throw h hp hl
+      exact ⟨t, .mlk, rfl, by simp [hs]⟩
+    | locked o r td =>
+      have := ((inv_reachable h).lockPc t).2 ⟨o, r, td, hp⟩
+      rw [hl] at this; cases this
+    | unlocked o r => exact ⟨t, .ret o r, rfl, by simp [step, hp]⟩
+
+/-- a reachable state without enabled library step has every thread returned -/
+theorem C18_stuck_all_returned {s : St} (h : Reachable s) (hstuck : ∀ u, ¬ LibEnabled s u) (t : Tid) :
+    s.pc t = .idle := by
+  apply Classical.byContradiction
+  intro ht
+  obtain ⟨u, hu⟩ := C18_progress h ht
+  exact hstuck u hu
+
+/-- … and if the destructor was one of the calls, every future ever handed out is ready then -/
+theorem C18_stuck_after_dtor_all_ready {s : St} (h : Reachable s) (hstuck : ∀ u, ¬ LibEnabled s u)
+    (hd : s.seq.dead = true) : (∀ t, s.pc t = .idle) ∧ ∀ p ∈ s.seq.handed, s.seq.promise p ≠ .unset :=
+  ⟨C18_stuck_all_returned h hstuck, C18_never_hangs_partial h hd⟩
+
+/-- non-vacuity: thread 1 inside its critical section with one `set_value` to do (rank 3), thread 2 waiting
+for the lock (first level 1) and unable to take it -/
+example : ∃ s, Reachable s ∧ μ s 1 = 3 ∧ α s 2 = 1 ∧ step s 2 .mlk = none ∧ LibEnabled s 1 :=
+  ⟨_, ⟨[(1, .call (.get (.i 1) 0)), (1, .mlk), (1, .mul), (1, .ret (.get (.i 1) 0) .unit),
+        (1, .call (.set (.i 1) 5 true)), (2, .call (.ful 7)), (1, .mlk)], rfl⟩, by decide, by decide, by decide,
+   ⟨.pset 5, rfl, by decide⟩⟩
 
 end ConcVerif.DObj
